@@ -214,6 +214,74 @@ Section Dict.
     end.
 End Dict.
 
+(** DataDictionary::by_expr: tag.parse() -> by_tag, otherwise by_name
+    (the entry type is abstract) *)
+Definition by_expr {E} (by_tag : tag -> option E) (by_name_e : bytes -> option E) (s : bytes)
+  : outcome (option E) :=
+  match tag_from_str s with
+  | Ok t => Ok (by_tag t)
+  | Err _ => Ok (by_name_e s)
+  | Panic w => Panic w
+  end.
+
+(** ---- impl FromStr for TagRange (core/src/dictionary/data_element.rs):
+    "(gggg,eeee)" or "gggg,eeee" where the last two characters of the group or
+    of the element may be "xx". Every slice is an explicit panicking slice. *)
+Inductive tag_range := TRSingle (t : tag) | TRGroup100 (t : tag) | TRElement100 (t : tag).
+Definition E_tr_missing_tag : N := 1.
+Definition E_tr_missing_element : N := 2.
+Definition E_tr_group_length : N := 3.
+Definition E_tr_element_length : N := 4.
+Definition E_tr_unsupported : N := 5.
+Definition E_tr_group : N := 6.
+Definition E_tr_element : N := 7.
+Definition xx : bytes := [120; 120].
+
+Definition radix16_u16 (e : N) (s : bytes) : outcome N :=
+  match uint_from_str_radix 16 u16_max s with Some n => Ok n | None => Err e end.
+
+Definition tag_range_from_str (s : bytes) : outcome tag_range :=
+  s1 <- (if starts_with lparen s && ends_with rparen s
+         then slice s 1 (length s - 1)                      (* &s[1..s.len() - 1] *)
+         else Ok s) ;;
+  match split_on comma s1 with
+  | [] => Err E_tr_missing_tag                              (* split never yields nothing *)
+  | [_] => Err E_tr_missing_element
+  | group :: elem :: _ =>
+      if negb (Nat.eqb (length group) 4) then Err E_tr_group_length
+      else if negb (Nat.eqb (length elem) 4) then Err E_tr_element_length
+      else
+        let gx := bytes_eqb (skipn 2 group) xx in            (* &group.as_bytes()[2..] *)
+        let ex := bytes_eqb (skipn 2 elem) xx in
+        if gx && ex then Err E_tr_unsupported
+        else if gx then
+          g2 <- slice group 0 2 ;;                           (* &group[..2] *)
+          g <- radix16_u16 E_tr_group g2 ;;
+          e <- radix16_u16 E_tr_element elem ;;
+          Ok (TRGroup100 ((g * 256) mod 65536, e))
+        else if ex then
+          g <- radix16_u16 E_tr_group group ;;
+          e2 <- slice elem 0 2 ;;                            (* &elem[..2] *)
+          e <- radix16_u16 E_tr_element e2 ;;
+          Ok (TRElement100 (g, (e * 256) mod 65536))
+        else
+          g <- radix16_u16 E_tr_group group ;;
+          e <- radix16_u16 E_tr_element elem ;;
+          Ok (TRSingle (g, e))
+  end.
+
+(** ---- impl FromStr for VR (core/src/header.rs): a match on the 34 two-letter
+    literals, nothing that can panic. Result: the code as a * 256 + b. *)
+Definition vr_codes : list (N * N) :=
+  [(65,69);(65,83);(65,84);(67,83);(68,65);(68,83);(68,84);(70,76);(70,68);(73,83);(76,79);(76,84);
+   (79,66);(79,68);(79,70);(79,76);(79,86);(79,87);(80,78);(83,72);(83,76);(83,81);(83,83);(83,84);
+   (83,86);(84,77);(85,67);(85,73);(85,76);(85,78);(85,82);(85,83);(85,84);(85,86)].
+Definition vr_from_str (s : bytes) : outcome N :=
+  match s with
+  | [a; b] => if existsb (fun c => (fst c =? a) && (snd c =? b)) vr_codes then Ok (a * 256 + b) else Err 1
+  | _ => Err 1
+  end.
+
 (** ---- property-side definitions *)
 (** a key text usable inside a selector: no selector punctuation *)
 Definition good_key_chars (k : bytes) : Prop :=
